@@ -104,6 +104,9 @@ func main() {
 	if ch.Scenarios != nil {
 		core.RunIsolated(ch, c, only)
 	}
+	if ch.Post != nil {
+		ch.Post(c)
+	}
 	if replayKey != "" {
 		fmt.Printf("replay of %q at tier=%s seed=%d\n", replayKey, tier, seed)
 	}
